@@ -218,9 +218,54 @@ def ptt_rows(repo):
     return f, mesh, mono, seg
 
 
+def _grid_basis(chk, repo, clause, f, mono):
+    """ptt_vector with the coordinate grids written out (meshgrid / mgrid instead of helper.mesh): decided element by
+    element - the tip row is (+) the row index counted from floor(nr/2), the tilt row (-) the column index counted from
+    floor(nc/2), each on the (nr, nc) grid of the plane.  -> True when a verdict was given."""
+    from ..elem import ElemEval, Unsupported
+    from ..shapes import Shapes
+    SELF = S('self')
+    shp = nf.attr(SELF, 'shape')
+    i, j = S('@i'), S('@j')
+    want = {1: i - nf.floor(nf.index(shp, C(0)) / 2), 2: -(j - nf.floor(nf.index(shp, C(1)) / 2))}
+    pxs = {1: (nf.index(nf.attr(SELF, 'pixelscale'), C(0)), nf.index(nf.attr(SELF, '_pixelscale'), C(0))),
+           2: (nf.index(nf.attr(SELF, 'pixelscale'), C(1)), nf.index(nf.attr(SELF, '_pixelscale'), C(1)))}
+    verdicts, dets = [], []
+    for k in (1, 2):
+        grids = [a for a in nf.value_atoms(mono[k]) if is_app(a, ('meshgrid', 'mgrid', 'indices'))]
+        if len(grids) != 1:
+            return False
+        g = Poly.atom(grids[0])
+        ev = ElemEval(Shapes({}, assume_scalar=True))
+        try:
+            el = ev.at(g, (i, j))
+        except Unsupported:
+            return False
+        # the row of the basis is ravel(grid * mask) * pixel size (up to the sign convention)
+        coef = None
+        for sign in (1, -1):
+            for px in pxs[k]:
+                for mk in (nf.attr(SELF, 'mask'), nf.attr(SELF, '_mask')):
+                    if mono[k] == sign * nf.app('m:ravel', g * mk) * px or mono[k] == sign * nf.app('m:ravel', g) * nf.app('m:ravel', mk) * px \
+                            or mono[k] == sign * nf.app('m:ravel', mk) * nf.app('m:ravel', g) * px:
+                        coef = sign
+        if coef is None:
+            return False
+        verdicts.append(coef * el == want[k])
+        dets.append(f'row {k}: element [i, j] of the ramp = {fmt(coef * el)[:80]}; expected {fmt(want[k])[:80]}')
+    ok = all(verdicts)
+    chk.ob(clause, 'U-axis', f.key, 'basis = [1, +row ramp, -column ramp] (signs of the Tilt convention) [monolithic]', ok,
+           '; '.join(dets), f.loc())
+    chk.ob(clause, 'U-axis', f.key, 'row ramp scaled by the row pixel size, column ramp by the column pixel size [monolithic]', ok,
+           '; '.join(dets), f.loc())
+    return True
+
+
 def basis_rule(chk, repo, clause):
     f, mesh, mono, seg = ptt_rows(repo)
     if mesh is None:
+        if mono is not None and _grid_basis(chk, repo, clause, f, mono):
+            return
         raise AnalysisError('ptt_vector does not use helper.mesh')
     r, c = nf.index(mesh.result, C(0)), nf.index(mesh.result, C(1))
     px = lambda k: (nf.index(nf.attr(S('self'), 'pixelscale'), C(k)), nf.index(nf.attr(S('self'), '_pixelscale'), C(k)))
